@@ -17,7 +17,8 @@ JOBS = {'quick': 4, 'thorough': 16}
 REQUIRED_MONITORS = ('result_vs_fresh_map', 'shadow_comparison', 'rejection')
 REQUIRED_CLASSES = ('op:call', 'op:call-repeat', 'op:reject', 'op:mutate-ref', 'op:mutate-target', 'op:mutate-result',
                     'op:mutate-argument', 'multi-residue', 'shipped-pair', 'reject:other-atom-names', 'reject:non-molecule',
-                    'call-after-reject', 'call-after-mutation', 'mutate-argument:partial', 'mutate-argument:rotate-about-own-atom')
+                    'call-after-reject', 'call-after-mutation', 'mutate-argument:partial', 'mutate-argument:rotate-about-own-atom',
+                    'reject:same-foreign-object-again')
 RULE = ('histories of up to 30 operations over {call(arg from a pool of 6 conformations), reject(foreign argument), '
         'mutate(construction reference|target), mutate(earlier result), mutate(earlier argument)} on one map; reference '
         '>= 3 atoms (generated trees/graphs, multi-residue, shipped CUR/VTE pairs). Non-trivial history: >= 3 distinct '
@@ -147,6 +148,7 @@ def run_case(ctx, case):
     kinds = []
     used_args = set()
     pending = set()
+    foreign_pool = {}
     nops = int(rng.integers(8, 31))
     ctx.count('evaluations')
 
@@ -221,7 +223,15 @@ def run_case(ctx, case):
         elif op == 'reject':
             kind = REJECTS[int(rng.integers(0, len(REJECTS)))]
             history.append(('reject', kind))
-            x = foreign(rng, refm, tgtm, kind)
+            # foreign molecules are kept and re-used (the same object again, or a sibling copy sharing its topology)
+            if kind in foreign_pool and rng.random() < 0.6:
+                x = foreign_pool[kind]
+                if hasattr(x, 'copy') and rng.random() < 0.5:
+                    x = x.copy()
+                ctx.hit('reject:same-foreign-object-again')
+            else:
+                x = foreign(rng, refm, tgtm, kind)
+                foreign_pool[kind] = x
             ctx.monitor('rejection')
             ctx.hit('op:reject')
             ctx.hit('reject:' + (kind if kind in ('other-atom-names', 'other-name', 'other-size', 'target-molecule') else 'non-molecule'))
